@@ -549,6 +549,8 @@ def r13_dispatcher_never_waits_for_a_consumer(ctx):
 def run(ctx):
     r13_dispatcher_never_waits_for_a_consumer(ctx)
     r12_close_is_never_cancelled(ctx)
+    from . import C20 as _C20e
+    _C20e.r10_read_loops(ctx, _C20e.input_reachable(ctx))   # end of the connection ends the receive loop (and so closes the session) even in the middle of a frame
     from . import C11 as _C11q
     _C11q.r6_every_write_under_buffer_lock(ctx)   # writers queue on Session.buffer, so close() is the only waiter on Session.writer and gets it as soon as the write in flight ends
     r11_only_write_locks_across_transport_writes(ctx)
